@@ -103,7 +103,7 @@ def main(tier, replay=None):
     camp.run(mapgen.header("Int", "Int", list(range(-40, 200, 10)), [7, 8, 9]),
              [mapgen.random_history(rng, "Tree", 24, 3, rng.choice([60, 200]) if quick else rng.choice([200, 1000]))
               for _ in range(nexec // 2)], "random/Int")
-    for kt, vt in (("Int", "Probe"), ("Probe", "Int")):            # key and value types of different sizes
+    for kt, vt in (("Int", "Probe"), ("Probe", "Int"), ("Odd12", "Int"), ("Int", "Odd12")):            # key and value types of different sizes
         camp.run(mapgen.header(kt, vt, list(range(0, 16 * 55, 55)), [7, 8, 9]),
                  [mapgen.random_history(rng, "Tree", 16, 3, rng.choice([60, 200]) if quick else rng.choice([200, 1000]))
                   for _ in range(max(4, nexec // 4))], "random/%s-%s" % (kt, vt))
